@@ -197,6 +197,25 @@ func fnQVToExt() *run.Fn {
 	}}
 }
 
+func fnQVToSid() *run.Fn {
+	return &run.Fn{Name: "ConvertQuadkeysAndVerticalIDsToSpatialIDs", Invoke: func(a []w.Val) w.Val {
+		var in []*object.QuadkeyAndVerticalID
+		z := w.AsInt(a[1])
+		for _, e := range w.AsList(a[0]) {
+			l := w.AsList(e)
+			qz, vz, k, mx, mn := w.AsInt(l[0]), w.AsInt(l[2]), w.AsInt(l[3]), w.AsFlt(l[4]), w.AsFlt(l[5])
+			if qz >= 1 && qz <= 31 && vz >= 0 && vz <= 35 && z >= 0 && z <= 35 {
+				if z-qz > 3 || (mx == mn && z-vz > 10) || (mx > mn && revRunTooLong(vz, k, z, mx, mn)) {
+					return refused
+				}
+			}
+			in = append(in, object.NewQuadkeyAndVerticalID(qz, w.AsInt(l[1]), vz, k, mx, mn))
+		}
+		ids, err := transform.ConvertQuadkeysAndVerticalIDsToSpatialIDs(in, z)
+		return w.WithErr(w.Strs(ids), err)
+	}}
+}
+
 // oracles: the horizontal half of the conversions is the code's own answer (subject of C11, not of this property)
 func oracles(r *run.Runner) {
 	r.Oracles["hkeys"] = func(a []w.Val) w.Val {
@@ -467,11 +486,69 @@ func floatBorder(g *Gen, r rng, depth int64) float64 {
 	return b
 }
 
-func reverseCase(g *Gen) (vz, k, oz int64, r rng, tags []string) {
+// subVoxelZooms: the output zooms at which cell [lo, hi) is lower than one output voxel and yet has a grid line k*2^(25-oz) inside it
+// (lo < line <= hi), so that the cell needs two vertical indices although it is smaller than a voxel.
+func subVoxelZooms(lo, hi float64) []int64 {
+	var out []int64
+	for oz := int64(0); oz <= 35; oz++ {
+		res := p2(25 - oz)
+		if hi-lo < res && math.Floor(lo/res) != math.Floor(hi/res) && math.Abs(hi)/res < p2(60) {
+			out = append(out, oz)
+		}
+	}
+	return out
+}
+
+// reverseCase: a cell (vz, k) of a height range and an output zoom. keep = the output zoom was chosen for the cell and must not be changed.
+// Streams: "subvoxel" = a cell lower than one output voxel with an output grid line in its interior (two indices from a tiny cell);
+// "near-line" = a range constructed so that a cell bound falls within rounding distance of an output grid line; otherwise random.
+func reverseCase(g *Gen) (vz, k, oz int64, r rng, tags []string, keep bool) {
+	stream := "random"
+	switch x := g.Intn(100); {
+	case x < 35:
+		stream = "subvoxel"
+	case x < 47:
+		stream = "near-line"
+	}
+	if stream == "near-line" {
+		oz = g.Zoom()
+		res := p2(25 - oz)
+		j := g.Int63n(2001) - 1000
+		if g.Chance(0.3) {
+			j = g.Int63n(1<<20) - (1 << 19)
+		}
+		G := float64(j) * res
+		vz = g.Int63n(21)
+		k = g.Int63n(int64(1) << uint(vz))
+		h0 := res * (0.3 + g.R.Float64()*7.7)
+		if g.Chance(0.3) { // a cell lower than a voxel whose top (or bottom) is about on the line
+			h0 = res * (0.05 + g.R.Float64()*0.9)
+		}
+		b := float64(g.Intn(2)) // which bound of the cell is put on the line
+		mn := G - (float64(k)+b)*h0
+		mx := mn + h0*p2(vz)
+		if mx > mn && math.Abs(mn) < p2(46) && math.Abs(mx) < p2(46) {
+			r = rng{mn, mx, "near-line"}
+			tags = []string{"dir=reverse", "range=near-line", "stream=near-line", Tag("vz=%d", vz), Tag("oz=%d", oz)}
+			return vz, k, oz, r, tags, true
+		}
+		stream = "random"
+	}
 	for {
 		r = heightRange(g)
 		if math.Abs(r.mn) < p2(46) && math.Abs(r.mx) < p2(46) {
 			break
+		}
+	}
+	if stream == "subvoxel" && g.Chance(0.5) && !(r.mn < 0 && r.mx > 0) { // move the range over altitude 0: a grid line at every zoom
+		d := r.mx - r.mn
+		mn := -d * (0.05 + 0.9*g.R.Float64())
+		if g.Chance(0.3) {
+			mn = -math.Floor(d*g.R.Float64()) - 1 // integer bounds, as in [-100, 400)
+			d = math.Ceil(d) + 1
+		}
+		if mn+d > 0 && mn < 0 {
+			r = rng{mn, mn + d, r.kind + "-over0"}
 		}
 	}
 	vz = g.Zoom()
@@ -489,14 +566,29 @@ func reverseCase(g *Gen) (vz, k, oz int64, r rng, tags []string) {
 	default:
 		k = g.Int63n(n)
 	}
+	h := (r.mx - r.mn) / p2(vz)
+	if stream == "subvoxel" {
+		if r.mn < 0 && r.mx > 0 && g.Chance(0.7) { // the cell holding altitude 0
+			k = int64(math.Floor(-r.mn / h))
+			if k >= n {
+				k = n - 1
+			}
+		}
+		lo := float64(k)*h + r.mn
+		if zs := subVoxelZooms(lo, lo+h); len(zs) > 0 {
+			oz = zs[g.Intn(len(zs))]
+			tags = []string{"dir=reverse", "range=" + r.kind, "stream=subvoxel", Tag("vz=%d", vz), Tag("oz=%d", oz)}
+			return vz, k, oz, r, tags, true
+		}
+	}
 	// cell height in output cells: (mx-mn)/2^vz / 2^(25-oz) <= 1500, and |altitude| * 2^(oz-25) < 2^60
 	oz = g.Zoom()
 	big := math.Max(math.Abs(r.mn), math.Abs(r.mx)) * 4
-	for oz > 0 && ((r.mx-r.mn)/p2(vz)/p2(25-oz) > 1500 || big*p2(oz-25) > p2(60)) {
+	for oz > 0 && (h/p2(25-oz) > 1500 || big*p2(oz-25) > p2(60)) {
 		oz--
 	}
-	tags = []string{"dir=reverse", "range=" + r.kind, Tag("vz=%d", vz), Tag("oz=%d", oz)}
-	return
+	tags = []string{"dir=reverse", "range=" + r.kind, "stream=random", Tag("vz=%d", vz), Tag("oz=%d", oz)}
+	return vz, k, oz, r, tags, false
 }
 
 func quadkeyOf(x, y, h int64) int64 {
@@ -507,7 +599,7 @@ func init() {
 	Scale["C17"] = 8000
 	Registry["C17"] = func(r *run.Runner, g *Gen, n int) {
 		oracles(r)
-		r.Register(fnCalc(), fnVidToBit(), fnBitToVid(), fnExtToQV(), fnSidToQV(), fnQVToExt())
+		r.Register(fnCalc(), fnVidToBit(), fnBitToVid(), fnExtToQV(), fnSidToQV(), fnQVToExt(), fnQVToSid())
 		emit := func(fn string, tags []string, triv bool, args ...w.Val) run.Verdict {
 			vd := r.Run(run.Case{Prop: "C17", Fn: fn, Tags: tags, Trivial: triv, Args: args})
 			if vd.Class != "" && vd.Class != "-" { // where the finding class occurs, visible in the distribution
@@ -596,7 +688,7 @@ func init() {
 					fwd(v, f, oz, mx, mn)
 				}
 			case k == 6 || k == 7: // convertBitToVerticalID
-				vz, kk, oz, rr, tags := reverseCase(g)
+				vz, kk, oz, rr, tags, _ := reverseCase(g)
 				a, b := rr.mx, rr.mn
 				vd := emit("convertBitToVerticalID", tags, false, w.I(vz), w.I(kk), w.I(oz), w.F(a), w.F(b))
 				if l, ok := vd.Model.(w.List); ok {
@@ -712,8 +804,7 @@ func init() {
 						emit(fn, st, false, w.Strs(ids), w.I(outH), w.I(oz), w.F(mx), w.F(mn))
 					}
 				}
-			default: // exported reverse conversion
-				outH := g.Int63n(34)
+			default: // exported reverse conversions (extended and spatial IDs)
 				nit := 1 + g.Intn(3)
 				items := w.List{}
 				tags := []string{"dir=reverse-api", Tag("nitems=%d", nit)}
@@ -723,15 +814,39 @@ func init() {
 					mx, mn        float64
 				}
 				var its []it
+				keep := false
 				for j := 0; j < nit; j++ {
-					vz, kk, oz, rr, _ := reverseCase(g)
-					if j > 0 && g.Chance(0.5) { // same range and zoom, neighbouring cell
+					var vz, kk, oz int64
+					var rr rng
+					if j > 0 && (keep || g.Chance(0.5)) { // same range and zoom, neighbouring cell
 						p := its[0]
-						vz, kk, rr = p.vz, p.k+int64(g.Intn(3))-1, rng{p.mn, p.mx, ""}
+						vz, kk, rr, oz = p.vz, p.k+int64(g.Intn(3))-1, rng{p.mn, p.mx, ""}, outV
+					} else {
+						var tg []string
+						var kp bool
+						vz, kk, oz, rr, tg, kp = reverseCase(g)
+						if j == 0 {
+							keep = kp
+							tags = append(tags, tg[1], tg[2], Tag("vz=%d", vz))
+						}
 					}
 					if oz < outV {
 						outV = oz
 					}
+					its = append(its, it{0, 0, vz, kk, rr.mx, rr.mn})
+				}
+				for _, e := range its {
+					big := math.Max(math.Abs(e.mn), math.Abs(e.mx)) * 4
+					for outV > 0 && ((e.mx-e.mn)/p2(e.vz)/p2(25-outV) > 120 || big*p2(outV-25) > p2(60)) {
+						outV--
+					}
+				}
+				sid := g.Chance(0.35) && outV <= 33 // ConvertQuadkeysAndVerticalIDsToSpatialIDs: one zoom for both axes
+				outH := g.Int63n(34)
+				if sid {
+					outH = outV
+				}
+				for j := range its {
 					qz := outH - int64(g.Intn(3)) + int64(g.Intn(6))
 					if qz < 1 {
 						qz = 1
@@ -739,17 +854,8 @@ func init() {
 					if qz > 31 {
 						qz = 31
 					}
-					qk := quadkeyOf(g.HIndex(qz), g.HIndex(qz), qz)
-					its = append(its, it{qz, qk, vz, kk, rr.mx, rr.mn})
-					if j == 0 {
-						tags = append(tags, "range="+rr.kind, Tag("vz=%d", vz))
-					}
-				}
-				for _, e := range its {
-					big := math.Max(math.Abs(e.mn), math.Abs(e.mx)) * 4
-					for outV > 0 && ((e.mx-e.mn)/p2(e.vz)/p2(25-outV) > 120 || big*p2(outV-25) > p2(60)) {
-						outV--
-					}
+					its[j].qz = qz
+					its[j].qk = quadkeyOf(g.HIndex(qz), g.HIndex(qz), qz)
 				}
 				if reversed {
 					j := g.Intn(len(its))
@@ -766,6 +872,9 @@ func init() {
 						tags = append(tags, "index-too-large")
 					case 2:
 						outH = g.Pick(-1, 36)
+						if sid {
+							outV = outH
+						}
 						tags = append(tags, "bad-zoom")
 					}
 				}
@@ -773,27 +882,40 @@ func init() {
 					items = append(items, w.L(w.I(e.qz), w.I(e.qk), w.I(e.vz), w.I(e.k), w.F(e.mx), w.F(e.mn)))
 				}
 				tags = append(tags, Tag("oz=%d", outV))
-				emit("ConvertQuadkeysAndVerticalIDsToExtendedSpatialIDs", tags, false, items, w.I(outH), w.I(outV))
+				fn := "ConvertQuadkeysAndVerticalIDsToExtendedSpatialIDs"
+				call := func(tg []string, l w.List, h, v int64) {
+					if sid {
+						if h >= 0 && h <= 35 && v != h {
+							return // the spatial variant has a single zoom
+						}
+						emit("ConvertQuadkeysAndVerticalIDsToSpatialIDs", tg, false, l, w.I(h))
+						return
+					}
+					emit(fn, tg, false, l, w.I(h), w.I(v))
+				}
+				if sid {
+					tags = append(tags, "sid")
+				}
+				call(tags, items, outH, outV)
 				if g.Chance(0.25) {
 					st := append(tags, "seq")
-					fn := "ConvertQuadkeysAndVerticalIDsToExtendedSpatialIDs"
-					emit(fn, st, false, items, w.I(outH), w.I(0))
-					emit(fn, st, false, items, w.I(outH), w.I(outV))
+					call(st, items, outH, 0)
+					call(st, items, outH, outV)
 					// the first element with a narrower range (one bound changed), then the original call again
 					e := its[0]
 					if e.mx > e.mn {
 						alt := w.List{}
 						alt = append(alt, w.L(w.I(e.qz), w.I(e.qk), w.I(e.vz), w.I(e.k), w.F(e.mx), w.F(e.mn+(e.mx-e.mn)*g.R.Float64()*0.5)))
 						alt = append(alt, items[1:]...)
-						emit(fn, st, false, alt, w.I(outH), w.I(outV))
+						call(st, alt, outH, outV)
 						alt2 := w.List{}
 						alt2 = append(alt2, w.L(w.I(e.qz), w.I(e.qk), w.I(e.vz), w.I(e.k), w.F(e.mx-(e.mx-e.mn)*g.R.Float64()*0.5), w.F(e.mn)))
 						alt2 = append(alt2, items[1:]...)
-						emit(fn, st, false, alt2, w.I(outH), w.I(outV))
-						if outV > 0 {
-							emit(fn, st, false, items, w.I(outH), w.I(outV-1))
+						call(st, alt2, outH, outV)
+						if outV > 0 && !sid {
+							call(st, items, outH, outV-1)
 						}
-						emit(fn, st, false, items, w.I(outH), w.I(outV))
+						call(st, items, outH, outV)
 					}
 				}
 			}
